@@ -100,31 +100,76 @@ fn c16_parse_total() {
     core::mem::forget(id);
 }
 
-/// Archive identifier: site() on arbitrary UTF-8 strings of up to 8 bytes (multi-byte included)
-/// returns without panicking and, when present, is the first four bytes.
-#[kani::proof]
-#[kani::unwind(12)]
-fn c16_archive_site_total() {
-    let b: [u8; 8] = kani::any();
-    let n: usize = kani::any();
-    kani::assume(n <= 8);
-    let s = match String::from_utf8(b[..n].to_vec()) {
-        Ok(s) => s,
-        Err(_) => return,
-    };
-    let id = Identifier::new(s);
-    match id.site() {
-        Some(site) => {
-            assert!(n >= 4);
-            let sb = site.as_bytes();
-            assert!(sb.len() == 4 && sb[0] == b[0] && sb[1] == b[1] && sb[2] == b[2] && sb[3] == b[3]);
+/// chrono's strftime-style parsers are outside reach; they are replaced by "any result" so that
+/// the archive-name slicing around them is still decided for every string.
+pub fn stub_date_parse(_s: &str, _fmt: &str) -> chrono::ParseResult<chrono::NaiveDate> {
+    if kani::any() {
+        match chrono::NaiveDate::from_ymd_opt(2024, 8, 13) {
+            Some(d) => Ok(d),
+            None => panic!("harness"),
         }
-        None => {
-            // fewer than 4 bytes, or byte 4 is not a character boundary
-            assert!(n < 4 || (b[3] >= 0x80 && (n == 4 || true)));
+    } else {
+        // a genuine ParseError value, obtained from a parser that is not stubbed, on empty input
+        match chrono::NaiveDateTime::parse_from_str("", "") {
+            Err(e) => Err(e),
+            Ok(_) => panic!("harness: empty input parsed"),
         }
     }
-    wit!(n == 8 && b[3] >= 0xC0);
-    wit!(n == 3);
+}
+pub fn stub_time_parse(_s: &str, _fmt: &str) -> chrono::ParseResult<chrono::NaiveTime> {
+    if kani::any() {
+        match chrono::NaiveTime::from_hms_opt(12, 33, 30) {
+            Some(t) => Ok(t),
+            None => panic!("harness"),
+        }
+    } else {
+        match chrono::NaiveDateTime::parse_from_str("", "") {
+            Err(e) => Err(e),
+            Ok(_) => panic!("harness: empty input parsed"),
+        }
+    }
+}
+
+/// Archive Identifier::site/date_time on strings of 0..=24 bytes made of free ASCII bytes with one
+/// two-byte character at a free position (valid UTF-8 by construction): both return without
+/// panicking; an all-ASCII name of the documented shape reaches the date and time parsers.
+#[kani::proof]
+#[kani::unwind(28)]
+#[kani::stub(chrono::NaiveDate::parse_from_str, stub_date_parse)]
+#[kani::stub(chrono::NaiveTime::parse_from_str, stub_time_parse)]
+fn c16_archive_name_total() {
+    let mut b: [u8; 24] = kani::any();
+    let n: usize = kani::any();
+    kani::assume(n <= 24);
+    let k: usize = kani::any();
+    let multibyte: bool = kani::any();
+    let mut i = 0;
+    while i < 24 {
+        b[i] &= 0x7f;
+        i += 1;
+    }
+    if multibyte {
+        kani::assume(k + 1 < n);
+        b[k] = 0xC3;
+        b[k + 1] = 0xA9;
+    }
+    let s = unsafe { String::from_utf8_unchecked(b[..n].to_vec()) };
+    let id = Identifier::new(s);
+    let site = id.site();
+    let dt = id.date_time();
+    if n < 19 {
+        assert!(dt.is_none(), "C16: a name too short for SSSSYYYYMMDD_HHMMSS has no date-time");
+    }
+    match site {
+        Some(st) => {
+            let sb = st.as_bytes();
+            assert!(n >= 4 && sb.len() == 4 && sb[0] == b[0] && sb[1] == b[1] && sb[2] == b[2] && sb[3] == b[3], "C16: site is the first four bytes");
+        }
+        None => assert!(n < 4 || (multibyte && k == 3), "C16: site missing although four bytes on a character boundary exist"),
+    }
+    wit!(multibyte && k == 3 && n == 24);
+    wit!(multibyte && k == 11 && n == 24);
+    wit!(!multibyte && n == 23 && dt.is_some());
+    wit!(n == 0);
     core::mem::forget(id);
 }
